@@ -87,6 +87,17 @@ impl SoundData for ProbeSoundData {
 	}
 }
 
+/// sound data whose conversion fails (like a stream whose decoder cannot seek to the start)
+pub struct BadSoundData(pub ProbeSound);
+
+impl SoundData for BadSoundData {
+	type Error = ();
+	type Handle = ();
+	fn into_sound(self) -> Result<(Box<dyn Sound>, ()), ()> {
+		Err(())
+	}
+}
+
 pub struct ProbeEffect {
 	pub id: u32,
 	pub log: Log,
@@ -518,8 +529,13 @@ fn log_gameplay_status(s: &mut Session, t: &mut Tracer, st: &Status, x: u32, fir
 			}
 			true
 		}
+		Status::Done(v) if !v.is_object() => {
+			// nothing was in progress (the real code finished this call earlier than the model says)
+			t.ev(json!({"a": "tau"}));
+			true
+		}
 		Status::Done(v) => {
-			let ok = v["ok"].as_bool().unwrap();
+			let ok = v["ok"].as_bool().unwrap_or(false);
 			if first {
 				// creation ended without reaching a yield point: it failed (or hooks are missing)
 				t.ev(json!({"a": "create", "item": x, "ok": ok, "len": v["len"], "cap": v["cap"]}));
@@ -564,6 +580,36 @@ pub fn run_scenario(sc: &Value, t: &mut Tracer) {
 				});
 				log_gameplay_status(&mut s, t, &st, x, true)
 			}
+			"CreateBad" => {
+				// only sound arenas have a conversion step that can fail
+				if kind != "sound" && kind != "tsound" {
+					continue;
+				}
+				let st = s.gw.call(move |w| {
+					let data = BadSoundData(ProbeSound {
+						id: x,
+						finished: Default::default(),
+						log: w.log.clone(),
+						clock_ids: Default::default(),
+						mod_ids: Default::default(),
+					});
+					let r = if w.kind == "sound" {
+						w.manager.as_mut().unwrap().play(data).is_ok()
+					} else {
+						w.parent.as_mut().unwrap().play(data).is_ok()
+					};
+					let (len, cap) = w.len_cap();
+					json!({"ok": r, "len": len, "cap": cap})
+				});
+				match st {
+					Status::Done(v) => {
+						t.ev(json!({"a": "create_err", "item": x, "len": v["len"], "ok": v["ok"]}));
+						s.take_drops(t);
+						true
+					}
+					other => log_gameplay_status(&mut s, t, &other, x, true),
+				}
+			}
 			"Mark" | "GMark" => {
 				if !s.flags.lock().unwrap().contains_key(&x) {
 					// creation of x failed: there is nothing to mark
@@ -595,12 +641,47 @@ pub fn run_scenario(sc: &Value, t: &mut Tracer) {
 				let st = s.gw.wait();
 				log_gameplay_status(&mut s, t, &st, x, true)
 			}
-			"GDrain" | "GPush" => {
+			"GDrain" => {
+				// the stretch try_reserve -> drain: only if the call really is parked before its drain
+				// (a create path without that yield point has already drained: nothing to do)
 				let x = s.cur_item;
-				let st = s.gw.resume();
-				log_gameplay_status(&mut s, t, &st, x, false)
+				if let Status::Parked("ctl.reserved") = s.gw.ctl.status() {
+					let st = s.gw.resume();
+					log_gameplay_status(&mut s, t, &st, x, false)
+				} else {
+					t.ev(json!({"a": "tau"}));
+					true
+				}
+			}
+			"GPush" => {
+				let x = s.cur_item;
+				match s.gw.ctl.status() {
+					Status::Parked(_) => {
+						let st = s.gw.finish();
+						log_gameplay_status(&mut s, t, &st, x, false)
+					}
+					_ => {
+						t.ev(json!({"a": "tau"}));
+						true
+					}
+				}
 			}
 			"ABegin" => {
+				// if the real callback is still under way (the code did not follow the model), let it finish first
+				let mut guard = 0;
+				let mut alive = true;
+				while s.audio_started && guard < 200 && alive {
+					let st = match s.aw.ctl.status() {
+						Status::Parked(_) => s.aw.resume(),
+						_ => s.aw.wait(),
+					};
+					s.a_pending = false;
+					alive = log_audio_status(&mut s, t, &st);
+					guard += 1;
+				}
+				if !alive {
+					break;
+				}
 				t.ev(json!({"a": "cb_begin"}));
 				s.aw.start(&["sto."], cb_job);
 				s.audio_started = true;
